@@ -1,5 +1,5 @@
 (* Correspondence for C09: export -> re-parse round trips of the implementation (ProblemExporter + ProblemParser)
-   versus the model (Model/ProblemExporter.v + Model/Problem.v, configuration cfg_fixed, exact goal constants) and
+   versus the model (Model/ProblemExporter.v + Model/Problem.v, configuration Model.Problem.cfg_current = the tree as it is, exact goal constants) and
    the spec (the exported text, read independently by Spec.Problem.read_problem, must mean the same problem). *)
 From Coq Require Import List Ascii String Bool Arith PrimFloat.
 From Verif Require Import Base.Result Base.Str Base.Sexp Base.PyDict Base.Float
@@ -29,7 +29,7 @@ Definition rrepr (c : rcase) (x : float) : string :=
 Definition read_text (s : string) : result sexp := parse MFile (unesc s).
 
 Definition model_parse (v : vocab) (c : rcase) (e : sexp) : result mproblem :=
-  parse_problem cfg_fixed (rnum c) (mdomain_of v) e.
+  parse_problem cfg_current (rnum c) (mdomain_of v) e.
 
 Definition model_export (v : vocab) (c : rcase) (pb : mproblem) : sexp :=
   export_problem (rrepr c) None (v_name v) pb.
